@@ -63,6 +63,28 @@ pub fn gen(seed: u64, n: usize, _tier: &str) -> Vec<Case> {
             cmd_op(1, &[b"STRLEN", b"big"]), cmd_op(2, &[b"PING"])];
         cases.push(Case { id: format!("big-{}", id), ops, outs: vec![] });
     }
+    // pipelines whose total size is exactly a multiple of the server's read buffer (8192), and its
+    // neighbours: whatever a read returns - a full buffer or less - every complete frame is answered
+    // without waiting for more input
+    for (id, target) in [8191usize, 8192, 8193, 16383, 16384, 16385, 24576, 4096].iter().enumerate() {
+        for split in 0..2 {
+            let mut ops = vec![conn_op(1), conn_op(2), cmd_op(2, &[b"SET", b"k1", b"10"])];
+            let mut data = vec![];
+            for _ in 0..(1 + r.below(6)) { data.extend(gen_request(&mut r)); }
+            // one ECHO whose argument pads the stream to the target size
+            let mut fill = target.saturating_sub(data.len() + 30);
+            loop {
+                let f = wire(&[b"ECHO".to_vec(), vec![b'p'; fill]]);
+                if data.len() + f.len() == *target { data.extend(f); break; }
+                if data.len() + f.len() > *target { if fill == 0 { break; } fill -= 1; } else { fill += 1; }
+            }
+            let ch = if split == 0 { vec![data.clone()] } else { let cut = 1 + r.below(data.len() as u64 - 1) as usize; vec![data[..cut].to_vec(), data[cut..].to_vec()] };
+            ops.push(raw_op(1, &ch));
+            ops.push(cmd_op(1, &[b"PING"]));
+            ops.push(cmd_op(2, &[b"PING"]));
+            cases.push(Case { id: format!("fill-{}-{}", id, split), ops, outs: vec![] });
+        }
+    }
     for id in 0..n {
         let mut ops = vec![conn_op(1), conn_op(2)];
         // seed a wrong-type key so type errors occur
